@@ -78,6 +78,8 @@ pub struct Case {
     pub iters: usize,
     pub adapt: Adapt,
     pub clonepanic: Option<u64>,
+    /// the k-th (0-based, per case) logged destruction of an element panics
+    pub droppanic: Option<u64>,
     pub threads: Vec<Vec<Op>>,
     pub owner: Owner,
     pub sched: Vec<usize>,
@@ -337,6 +339,7 @@ struct Partial {
     src: Option<(Src, usize)>,
     adapt: Option<Adapt>,
     clonepanic: Option<u64>,
+    droppanic: Option<u64>,
     threads: Vec<Vec<Op>>,
     owner: Option<Owner>,
     sched: Option<Vec<usize>>,
@@ -390,6 +393,7 @@ fn finish(p: Partial) -> Result<Case, String> {
         iters,
         adapt,
         clonepanic: p.clonepanic,
+        droppanic: p.droppanic,
         threads: p.threads,
         owner: p.owner.unwrap_or(Owner::Drop),
         sched: p.sched.unwrap_or_default(),
@@ -460,6 +464,12 @@ pub fn parse_cases(text: &str) -> Result<Vec<Case>, String> {
                     .get(1)
                     .ok_or_else(|| format!("line {ln}: clonepanic <k>"))?;
                 p.clonepanic = Some(num::<u64>(k, "clonepanic", ln)?);
+            }
+            "droppanic" => {
+                let k = toks
+                    .get(1)
+                    .ok_or_else(|| format!("line {ln}: droppanic <k>"))?;
+                p.droppanic = Some(num::<u64>(k, "droppanic", ln)?);
             }
             "thread" => {
                 let rest = line["thread".len()..].trim_start();
